@@ -38,6 +38,35 @@ func baseWmin() []*SvcSpec {
 	return []*SvcSpec{s0, s1}
 }
 
+// baseWdeep: a chain of value types at one service ending in two entity references whose
+// fields live at the other service (same-service path of length >= 3 with two siblings
+// that each need a child step).  Tiny on purpose: all operations up to K=8 are enumerable.
+func baseWdeep() []*SvcSpec {
+	s0 := newSvc("http://s0")
+	s0.addType("N1", "Node", "name: String")
+	s0.Query = []string{"n1s: [N1!]!"}
+	s1 := newSvc("http://s1")
+	s1.addType("N1", "Node")
+	s1.addType("A", "", "b: B")
+	s1.addType("B", "", "c: C")
+	s1.addType("C", "", "l: N1", "r: N1")
+	s1.Query = []string{"root: A"}
+	return []*SvcSpec{s0, s1}
+}
+
+// baseWfan: one entity with three self references owned by the root service and one scalar
+// at each of two other services, so that the child steps of one level alternate services.
+func baseWfan() []*SvcSpec {
+	s0 := newSvc("http://s0")
+	s0.addType("N1", "Node", "a: N1", "b: N1", "c: N1")
+	s0.Query = []string{"n1s: [N1!]!"}
+	s1 := newSvc("http://s1")
+	s1.addType("N1", "Node", "p: String")
+	s2 := newSvc("http://s2")
+	s2.addType("N1", "Node", "q: String")
+	return []*SvcSpec{s0, s1, s2}
+}
+
 type WorldAtom struct {
 	Name  string
 	Apply func(ss []*SvcSpec) []*SvcSpec // may append services
@@ -171,6 +200,42 @@ var WorldAtoms = []WorldAtom{
 		ss[0].Query = append(ss[0].Query, "n7s: [N7!]!")
 		ss[1].Types["N1"] = append(ss[1].Types["N1"], "n7: N7")
 		ss[1].addType("N7", "Node", "seven: Int")
+		return ss
+	}, false},
+	{"mutation-node-shaped-field", func(ss []*SvcSpec) []*SvcSpec {
+		// a root field with the shape of the Relay lookup, (id: ID!): Node, but another name and root type
+		ss[0].Mut = append(ss[0].Mut, "archive(id: ID!): Node")
+		if len(ss[0].Mut) == 1 {
+			ss[0].Mut = append(ss[0].Mut, "incr(by: Int!): Int!")
+		}
+		ss[1].Mut = append(ss[1].Mut, "bump(by: Int!): Int!")
+		ss[1].Query = append(ss[1].Query, "lookup(id: ID!): Node")
+		return ss
+	}, false},
+	{"shared-input-with-defaults", func(ss []*SvcSpec) []*SvcSpec {
+		for i := 0; i < 2; i++ {
+			ss[i].Extra = append(ss[i].Extra, `input Page { limit: Int! = 10 after: String = "a" tags: [String!] = ["x"] }`)
+			ss[i].Query = append(ss[i].Query, fmt.Sprintf("page%d(p: Page = {limit: 3}): Int", i))
+		}
+		return ss
+	}, false},
+	{"edge-type-with-node-field", func(ss []*SvcSpec) []*SvcSpec {
+		// a Relay connection edge: an ordinary type with a field called node
+		ss[1].addType("N1Edge", "", "cursor: String", "node: N1")
+		ss[1].Query = append(ss[1].Query, "edges: [N1Edge!]")
+		return ss
+	}, false},
+	{"id-only-node-type", func(ss []*SvcSpec) []*SvcSpec {
+		ss[0].addType("Tenant", "Node")
+		ss[0].Query = append(ss[0].Query, "tenant: Tenant")
+		return ss
+	}, false},
+	{"mutation-null-and-empty-results", func(ss []*SvcSpec) []*SvcSpec {
+		ss[0].Mut = append(ss[0].Mut, "nullN1: N1", "emptyN1s: [N1!]!")
+		if len(ss[0].Mut) == 2 {
+			ss[0].Mut = append(ss[0].Mut, "incr(by: Int!): Int!")
+		}
+		ss[1].Mut = append(ss[1].Mut, "bump(by: Int!): Int!")
 		return ss
 	}, false},
 	{"third-service", func(ss []*SvcSpec) []*SvcSpec {
@@ -318,6 +383,10 @@ func (d WorldDesc) Build() (*World, error) {
 		ss = baseW0()
 	case "Wmin":
 		ss = baseWmin()
+	case "Wdeep":
+		ss = baseWdeep()
+	case "Wfan":
+		ss = baseWfan()
 	default:
 		return nil, fmt.Errorf("unknown base %s", d.Base)
 	}
